@@ -510,6 +510,9 @@ def rule_f(ctx, ix, newest_of=None):
                 for n in ast.walk(t):
                     if isinstance(n, ast.Name):
                         gens.add(n.id)
+    for c_ in ast.walk(f.node):
+        if isinstance(c_, ast.Call) and isinstance(c_.func, ast.Name) and c_.func.id == 'next' and c_.args and isinstance(c_.args[0], ast.Name):
+            gens.add(c_.args[0].id)
     loops = cfg.find(lambda st: isinstance(st, ast.For) and isinstance(st.iter, ast.Name) and st.iter.id in gens)
     if not stores or not loops:
         raise AnalysisError('GlueUnSerializer.object: registration store or resume loop not recognised')
